@@ -2,6 +2,7 @@ import EudoxiaModel.Proofs.Reach
 import EudoxiaModel.Proofs.Counts
 import EudoxiaModel.Proofs.Live
 import EudoxiaModel.Proofs.Built
+import EudoxiaModel.Proofs.WorldLive
 /-! # C02 — operator lifecycle follows the documented state machine; completion is final -/
 namespace Eudoxia.C02
 open Eudoxia Extracted OpState
@@ -98,30 +99,6 @@ example : (({ ops := #[⟨0, [], []⟩, ⟨0, [0], []⟩], st := #[completed, pe
 structure WorldLive (w : World) : Prop where
   pools : ∀ p ∈ w.pools, PoolGoodMem w.cfg p w.nextCid ∧ PoolLive w.cfg w.store p
   nd : (w.pools.flatMap ownP).Nodup
-
-theorem built_frame {w w' : World} {as : List Asg} (hb : Built w as w') :
-    w'.pools = w.pools ∧ w'.cfg = w.cfg ∧ w'.nextCid = w.nextCid ∧ Steps w.store w'.store := by
-  induction hb with
-  | nil => exact ⟨rfl, rfl, rfl, .refl _⟩
-  | cons hm _ ih =>
-    obtain ⟨p1, p2, p3⟩ := mkAssignment_pools_ok hm
-    obtain ⟨i1, i2, i3, i4⟩ := ih
-    exact ⟨by rw [i1, p1], by rw [i2, p2], by rw [i3, p3], (mkAssignment_steps_ok hm).trans i4⟩
-
-theorem pendFor_zero (asgs : List Asg) : pendFor asgs 0 = asgs := by
-  unfold pendFor
-  exact List.filter_eq_self.mpr (fun a _ => by simp)
-
-theorem ops_sublist_flatMap : ∀ (asgs : List Asg) (a : Asg), a ∈ asgs → a.ops.Sublist (asgs.flatMap (·.ops)) := by
-  intro asgs
-  induction asgs with
-  | nil => intro a ha; simp at ha
-  | cons x xs ih =>
-    intro a ha
-    rw [List.flatMap_cons]
-    rcases List.mem_cons.mp ha with rfl | ha'
-    · exact List.sublist_append_left _ _
-    · exact (ih a ha').trans (List.sublist_append_right _ _)
 
 /-- **C02 — an operator is in at most one live container.**  If the invariant holds, the scheduler then builds any chain of accepted
 `Assignment`s (of operators that have segments), and the executor tick that is handed exactly those assignments (and any suspensions) succeeds,
